@@ -42,6 +42,7 @@ type harness struct {
 	Workers  int
 	Steps    int64
 	Decisions int
+	MaxViolations int
 	ConcCap  int
 	AllowPanic bool
 	Doc      string
@@ -203,6 +204,9 @@ func main() {
 		run.WitnessCap = *flagWitness
 		run.Deadline = deadline
 		run.MaxViolations = 12
+		if h.MaxViolations > 0 {
+			run.MaxViolations = h.MaxViolations
+		}
 		h.run = run
 		nw := h.Workers
 		if nw <= 0 {
@@ -337,6 +341,8 @@ func discover(dir string) ([]*harness, error) {
 							h.Decisions, _ = strconv.Atoi(v)
 						case "conccap":
 							h.ConcCap, _ = strconv.Atoi(v)
+						case "violations":
+							h.MaxViolations, _ = strconv.Atoi(v)
 						case "allowpanic":
 							h.AllowPanic = true
 						}
@@ -479,7 +485,7 @@ func triage(sel []*harness, kf *kfFile, tmpDir string) *triageResult {
 				continue
 			}
 			key := ob.Label + "|" + ob.KF + "|" + fmt.Sprint(ob.InKF)
-			if seen[key] >= 3 {
+			if seen[key] >= 10 { // replay up to ten counterexamples per obligation: engine-only ones (hash coincidences) must not hide a real one
 				continue
 			}
 			seen[key]++
